@@ -1,6 +1,7 @@
 from __future__ import annotations
 
 import numbers
+import operator
 import pathlib
 import sys
 import mmap
@@ -375,7 +376,7 @@ class Bits:
             raise ValueError("Cannot shift an empty bitstring.")
         if not n:
             return self._copy()
-        n = min(int(n), len(self))
+        n = min(operator.index(n), len(self))
         s = self.__class__(length=n)
         s._addright(self._absolute_slice(0, len(self) - n))
         return s
@@ -1163,6 +1164,7 @@ class Bits:
 
     def _imul(self: TBits, n: int, /) -> TBits:
         """Concatenate n copies of self in place. Return self."""
+        n = operator.index(n)  # a plain int: a fixed-width (numpy) count would overflow in the arithmetic below
         assert n >= 0
         if n == 0:
             self._clear()
